@@ -67,6 +67,25 @@ reg('C05', 'exploration', 'runtime monitor: metamorphic relations over paired ca
     'added peptides must be attributable (sequence-level limit predicate, SECT/W2F/ORF identifiers, not demanded without the added record). Includes dense inputs '
     'that are too large for haplotype enumeration, compared by strict inclusion with limits disabled.', TB, 'DESIGN.md section 6 C05')
 
+reg('C06', 'exploration', 'runtime monitor: metamorphic equality over paired executions that differ in one schedule/layout factor (CLI with ppft workers, hash seeds, file layouts, .idx, index directory)',
+    'One logical input is executed under different --threads values (real ppft worker processes, batch shapes with skipped transcripts at first/middle/last '
+    'position), GVF partitions/orders with and without indexGVF files, raw vs generateIndex reference and PYTHONHASHSEED values; every output must equal '
+    'the --threads 1 single-file base run. Thorough enumerates the (n_tx<=9, skipped subset, threads<=8) shapes.', TB + 'The base run is tied to the definitional oracle by C01/C02.',
+    'DESIGN.md section 6 C06')
+reg('C07', 'fault_enumeration', 'runtime monitor with source-free failpoints: every single fault and pairs over the processing units, in-process and in ppft workers',
+    'Failpoints raise inside call_peptide_main / _fusion / _circ_rna for a chosen set of units; recording wrappers capture what every unit returns. With '
+    '--skip-failed: completion, tally, untouched surviving units, no loss of their peptides, absence of the failed units\' exclusive peptides; without it: '
+    'abort and no FASTA. All single faults (and pairs, triples in thorough) of each generated case are enumerated.', TB + 'Faults are injected exceptions at the entry of the per-unit callers; natural data faults are not generated.',
+    'DESIGN.md section 6 C07')
+reg('C08', 'exploration', 'runtime monitor: two-sided reference-model oracle (own transcript selection + ATG-ORF digest) and ORF-FASTA invariants over generated references',
+    'callNovelORF is executed in-process on generated references over the option grid; output must contain MUST and be contained in MAY of an own '
+    'definitional ORF digest; transcript selection (coding only with --coding-novel-orf, gene-biotype lists, length) is re-implemented; the ORF FASTA is '
+    'checked by re-translating the stated coordinates.', TB + 'W>F forms of canonical peptides and pepsin are left open.', 'DESIGN.md section 6 C08')
+reg('C09', 'exploration', 'runtime monitor: two-sided reference-model oracle for SECT / W2F forms and per-entry witness check over generated selenoprotein references',
+    'callAltTranslation is executed on generated references with 0-3 Sec codons and NF flags; output vs own digest of Sec-terminated and W>F-substituted '
+    'forms minus the plain digest and canonical pool; each header entry must name events that suffice (SECT at an annotated Sec codon, W2F at an F).',
+    TB, 'DESIGN.md section 6 C09')
+
 NOT_YET = 'check not built yet in this session (runtime-monitoring design exists in DESIGN.md section 6); will be claimed when its monitor is committed'
 
 
